@@ -4,6 +4,7 @@ use std::cell::RefCell;
 use std::collections::BTreeMap;
 
 thread_local! { pub static LAST_PANIC: RefCell<String> = RefCell::new(String::new()); }
+thread_local! { pub static LAST_PANIC_MSG: RefCell<String> = RefCell::new(String::new()); }
 
 pub fn i(s: &str) -> i32 {
     s.parse::<i64>().unwrap() as i32
